@@ -1070,11 +1070,30 @@ func c20RunCase(els []c20Elem, o c20Opts) c20Result {
 			}
 			// actual masks as built (a heading run is bold through its style)
 			masks := orig[i].tokMasks(e)
+			// neighbouring runs with the same formatting may be written as one span (one pair of markers around
+			// both): such a group is judged as one run
+			type tokRun struct {
+				Tok  string
+				Mask int
+			}
+			var trs []tokRun
 			k := 0
 			for _, r := range e.Runs {
 				if r.Tok == "" {
 					continue
 				}
+				m := r.Mask
+				if k < len(masks) {
+					m = masks[k]
+				}
+				k++
+				if n := len(trs); n > 0 && trs[n-1].Mask == m && m != 0 && strings.Contains(md1, trs[n-1].Tok+r.Tok) {
+					trs[n-1].Tok += r.Tok
+					continue
+				}
+				trs = append(trs, tokRun{r.Tok, m})
+			}
+			for _, r := range trs {
 				p := strings.Index(md1, r.Tok)
 				a, b := p, p+len(r.Tok)
 				for a > 0 && c20IsMarker(md1[a-1]) {
@@ -1104,10 +1123,6 @@ func c20RunCase(els []c20Elem, o c20Opts) c20Result {
 				}
 				prevEnd = p + len(r.Tok) + len(close)
 				m := r.Mask
-				if k < len(masks) {
-					m = masks[k]
-				}
-				k++
 				if cu := c20CheckMarkers(m, open, close, e.Kind[0] == 'h'); cu != "" {
 					add("marker|"+cu, "marker", fmt.Sprintf("%s run %q with %s formatting is exported as %q", e.Kind, r.Tok, c20MaskName(m), open+r.Tok+close), nil, nil)
 				}
